@@ -73,8 +73,14 @@ func runC19(c *an.Ctx) {
 		"the clock is read inside the critical section (admissions are totally ordered consistently with their timestamps)", "lock state at time.Now()")
 	nowT := fi.Term(nowCall)
 
-	// returns
-	nTrue := 0
+	// ---- admission: every way Allow can answer, with the facts that hold on that way ----
+	type retCase struct {
+		val   *an.Term
+		facts an.FactSet
+		from  *ssa.BasicBlock // the block control comes from (the return block, or the phi's predecessor)
+		pos   ssa.Instruction
+	}
+	var cases []retCase
 	for _, b := range allow.Blocks {
 		if len(b.Instrs) == 0 || b == allow.Recover {
 			continue
@@ -83,231 +89,257 @@ func runC19(c *an.Ctx) {
 		if !ok || len(ret.Results) != 1 {
 			continue
 		}
-		// (defer spills results into a local; the term forwards the stored constant)
-		rt := fi.Term(ret.Results[0])
-		kv, isConst := rt.IsConst()
-		if !isConst {
-			// the answer is a computed condition R: the call must be recorded exactly when R holds, and R must be the limit test
-			nTrue++
-			okR := false
-			if rt.K == an.KBin && rt.S == "<" && rt.A[0].K == an.KLen {
-				if fld, _, ok := mapFieldOfTerm(rt.A[0].A[0]); ok && fld == "reqs" {
-					if f2, _, ok := mapFieldOfTerm(rt.A[1]); ok && f2 == "limit" {
-						okR = true
+		if ph, isPhi := ret.Results[0].(*ssa.Phi); isPhi && fi.Term(ph).K == an.KPhi {
+			for i, e := range ph.Edges {
+				pred := ph.Block().Preds[i]
+				fs := an.FactSet{}
+				for k, f := range fi.FactsAtBlock(pred) {
+					fs[k] = f
+				}
+				for _, f := range fi.EdgeFacts(pred, ph.Block()) {
+					fs[f.Key()] = f
+				}
+				cases = append(cases, retCase{fi.Term(e), fs, pred, ret})
+			}
+			continue
+		}
+		cases = append(cases, retCase{fi.Term(ret.Results[0]), fi.FactsAt(ret), b, ret})
+	}
+	records := recordStores(fi, allow, nowT)
+	isLimitTest := func(t *an.Term) bool {
+		if t.K == an.KBin && t.S == "<" && t.A[0].K == an.KLen {
+			if fld, _, ok := mapFieldOfTerm(t.A[0].A[0]); ok && fld == "reqs" {
+				if f2, _, ok := mapFieldOfTerm(t.A[1]); ok && f2 == "limit" {
+					return true
+				}
+			}
+		}
+		return false
+	}
+	hasLimitFact := func(fs an.FactSet, admit bool) (bool, string) {
+		for _, f := range fs {
+			t := f.T
+			if f.Neg || t.K != an.KBin {
+				continue
+			}
+			if admit && isLimitTest(t) {
+				return true, short(t.Key())
+			}
+			if !admit && t.S == "<=" && t.A[1].K == an.KLen {
+				if fld, _, ok := mapFieldOfTerm(t.A[1].A[0]); ok && fld == "reqs" {
+					if f2, _, ok := mapFieldOfTerm(t.A[0]); ok && f2 == "limit" {
+						return true, short(t.Key())
 					}
 				}
 			}
-			c.Check(okR, "PRED", allow, ret.Pos(), an.KeyOf(allow, "admit-pred"), "the answer is the limit test len(kept) < limit on the list as it is after expiry and before this call is recorded", "returned condition "+short(rt.Key()))
+		}
+		return false, ""
+	}
+	recordedBefore := func(b *ssa.BasicBlock) bool {
+		for _, st := range records {
+			if st.Block() == b || st.Block().Dominates(b) {
+				return true
+			}
+		}
+		return false
+	}
+	nTrue := 0
+	for i, cs := range cases {
+		kv, isConst := cs.val.IsConst()
+		tag := fmt.Sprintf("#%d", i)
+		_ = tag
+		switch {
+		case isConst && kv == "true":
+			nTrue++
+			okPred, d := hasLimitFact(cs.facts, true)
+			c.Check(okPred, "PRED", allow, cs.pos.Pos(), an.KeyOf(allow, "admit-pred"), "true is answered only under len(kept) < limit (spec C19.admit: q = len(kept) - limit, q < 0)", "dominating fact "+d)
+			c.Check(recordedBefore(cs.from), "PRED", allow, cs.pos.Pos(), an.KeyOf(allow, "admit-records"), "the admitted call's timestamp (the time.Now() read in this call) is appended to the list before true is answered", "store of append(reqs, now)")
+		case isConst && kv == "false":
+			okFull, d := hasLimitFact(cs.facts, false)
+			c.Check(okFull, "PRED", allow, cs.pos.Pos(), an.KeyOf(allow, "refuse-pred"), "false is answered only under limit <= len(kept): a call is admitted whenever fewer than the limit remain in the window (no starvation)", "fact "+d+"; facts "+factList(cs.facts))
+			c.Check(!recordedBefore(cs.from), "PRED", allow, cs.pos.Pos(), an.KeyOf(allow, "refuse-unrecorded"), "a refused call is not recorded (it cannot starve later callers)", "no store of append(reqs, now) on the way to this answer")
+		default:
+			// the answer is a computed condition R: it must be the limit test, and the call is recorded exactly when R holds
+			nTrue++
+			c.Check(isLimitTest(cs.val), "PRED", allow, cs.pos.Pos(), an.KeyOf(allow, "admit-pred"), "the answer is the limit test len(kept) < limit on the list as it is after expiry and before this call is recorded", "returned condition "+short(cs.val.Key()))
 			recorded := false
-			for _, st := range recordStores(fi, allow, nowT) {
-				if fi.FactsAt(st).Has(rt.Key()) {
+			for _, st := range records {
+				if fi.FactsAt(st).Has(cs.val.Key()) {
 					recorded = true
 				}
 			}
-			c.Check(recorded, "PRED", allow, ret.Pos(), an.KeyOf(allow, "admit-records"), "the call's timestamp is appended exactly on the path where the returned condition holds", "record stores under the returned condition")
-			continue
+			c.Check(recorded, "PRED", allow, cs.pos.Pos(), an.KeyOf(allow, "admit-records"), "the call's timestamp is appended exactly on the path where the returned condition holds", "record stores under the returned condition")
 		}
-		if kv != "true" {
-			// a refusal: only when the limit is reached
-			okFull := false
-			for _, f := range fi.FactsAt(ret) {
-				t := f.T
-				if !f.Neg && t.K == an.KBin && t.S == "<=" && t.A[1].K == an.KLen {
-					if fld, _, ok := mapFieldOfTerm(t.A[1].A[0]); ok && fld == "reqs" {
-						if f2, _, ok := mapFieldOfTerm(t.A[0]); ok && f2 == "limit" {
-							okFull = true
-						}
-					}
-				}
-			}
-			c.Check(okFull, "PRED", allow, ret.Pos(), an.KeyOf(allow, "refuse-pred"), "false is returned only under limit <= len(kept): a call is admitted whenever fewer than the limit remain in the window (no starvation)", "facts "+factList(fi.FactsAt(ret)))
-			continue
-		}
-		nTrue++
-		// facts: len(reqs) < limit
-		okPred := false
-		var predDesc string
-		for _, f := range fi.FactsAt(ret) {
-			t := f.T
-			if f.Neg || t.K != an.KBin || t.S != "<" {
-				continue
-			}
-			if t.A[0].K == an.KLen {
-				if fld, _, ok := mapFieldOfTerm(t.A[0].A[0]); ok && fld == "reqs" {
-					if f2, _, ok := mapFieldOfTerm(t.A[1]); ok && f2 == "limit" {
-						okPred = true
-						predDesc = short(t.Key())
-					}
-				}
-			}
-		}
-		c.Check(okPred, "PRED", allow, ret.Pos(), an.KeyOf(allow, "admit-pred"), "true is returned only under len(kept) < limit (spec C19.admit: q = len(kept) - limit, q < 0)",
-			"dominating fact "+predDesc)
-		// an append of now to reqs dominates the return
-		okApp := false
-		for _, b2 := range allow.Blocks {
-			for _, in := range b2.Instrs {
-				st, ok := in.(*ssa.Store)
-				if !ok || !an.Dominates(st, ret) {
-					continue
-				}
-				cls := fi.RefClass(st.Addr)
-				if f, ok := cls.FieldOf("RateLimiter"); !ok || f != "reqs" {
-					continue
-				}
-				if call, ok := st.Val.(*ssa.Call); ok {
-					if bi, ok := call.Call.Value.(*ssa.Builtin); ok && bi.Name() == "append" {
-						// appended element
-						if sl, ok := call.Call.Args[1].(*ssa.Slice); ok {
-							if al, ok := sl.X.(*ssa.Alloc); ok {
-								if refs := al.Referrers(); refs != nil {
-									for _, r := range *refs {
-										if ia, ok := r.(*ssa.IndexAddr); ok {
-											for _, r2 := range *ia.Referrers() {
-												if s2, ok := r2.(*ssa.Store); ok && fi.Term(s2.Val).Key() == nowT.Key() {
-													okApp = true
-												}
-											}
-										}
-									}
-								}
-							}
-						}
-					}
-				}
-			}
-		}
-		c.Check(okApp, "PRED", allow, ret.Pos(), an.KeyOf(allow, "admit-records"), "the admitted call's timestamp (the time.Now() read in this call) is appended to the list before true is returned", "store of append(reqs, now)")
 	}
-	// a recorded call is an admitted call: from every store that appends now to the list, only admitting returns are reachable
-	for _, st := range recordStores(fi, allow, nowT) {
+	// a recorded call is an admitted call: every answer reachable from a store that appends now is an admitting one
+	for _, st := range records {
 		okOnly := true
 		why := ""
-		seen := map[*ssa.BasicBlock]bool{}
-		var walk func(b *ssa.BasicBlock)
-		walk = func(b *ssa.BasicBlock) {
-			if seen[b] || b == allow.Recover {
-				return
+		for _, cs := range cases {
+			if !(cs.from == st.Block() || st.Block().Dominates(cs.from) || reachable(st.Block(), cs.from)) {
+				continue
 			}
-			seen[b] = true
-			if len(b.Instrs) > 0 {
-				if ret, ok := b.Instrs[len(b.Instrs)-1].(*ssa.Return); ok && len(ret.Results) == 1 {
-					rt := fi.Term(ret.Results[0])
-					if k, isC := rt.IsConst(); isC {
-						if k != "true" {
-							okOnly = false
-							why = "return false at " + p.Pos(ret.Pos()) + " is reachable after the append"
-						}
-					} else if !fi.FactsAt(st).Has(rt.Key()) {
-						okOnly = false
-						why = "the returned condition " + short(rt.Key()) + " is not known to hold where the call is recorded"
-					}
+			kv, isConst := cs.val.IsConst()
+			switch {
+			case isConst && kv == "true":
+			case isConst:
+				// a constant false reached after the append (not merely sharing a later join)
+				if st.Block() == cs.from || st.Block().Dominates(cs.from) {
+					okOnly = false
+					why = "false is answered at " + p.Pos(cs.pos.Pos()) + " after the append"
+				}
+			default:
+				if !fi.FactsAt(st).Has(cs.val.Key()) {
+					okOnly = false
+					why = "the returned condition " + short(cs.val.Key()) + " is not known to hold where the call is recorded"
 				}
 			}
-			for _, s := range b.Succs {
-				walk(s)
-			}
 		}
-		walk(st.Block())
 		c.Check(okOnly, "PRED", allow, st.Pos(), an.KeyOf(allow, "record-implies-admit"), "a call whose timestamp is appended to the list is always answered true (refused calls leave the list unchanged, so they cannot starve later callers)", why)
 	}
 	c.Count("PRED", nTrue)
 	if nTrue == 0 {
-		c.Violated("PRED", allow, allow.Pos(), an.KeyOf(allow, "no-true"), "Allow has no admitting return", "no return of true or of the limit test")
+		c.Violated("PRED", allow, allow.Pos(), an.KeyOf(allow, "no-true"), "Allow has no admitting answer", "no return of true or of the limit test")
 	}
 
-	// retention: the only time comparison is stored.After(now.Add(-rate))
-	nCmp := 0
+	// ---- expiry: in Allow or in a helper method it calls with the clock value ----
+	type expFn struct {
+		fn   *ssa.Function
+		nowK string // key of the term that stands for this call's time.Now() inside fn
+	}
+	exps := []expFn{{allow, nowT.Key()}}
 	for _, b := range allow.Blocks {
 		for _, in := range b.Instrs {
 			call, ok := in.(*ssa.Call)
 			if !ok {
 				continue
 			}
-			name := an.CalleeName(&call.Call)
-			if !strings.HasPrefix(name, "(time.Time).") {
+			sc := call.Call.StaticCallee()
+			if sc == nil || sc.Pkg != allow.Pkg || !strings.Contains(an.FuncName(sc), "RateLimiter") {
 				continue
 			}
-			switch name {
-			case "(time.Time).After", "(time.Time).Before", "(time.Time).Equal", "(time.Time).Compare", "(time.Time).Sub":
-			default:
-				continue
-			}
-			nCmp++
-			key := an.KeyOf(allow, "retain-pred")
-			recv := fi.Term(call.Call.Args[0])
-			arg := fi.Term(call.Call.Args[1])
-			okShape := name == "(time.Time).After"
-			// receiver: an element of reqs
-			recvOK := false
-			if rcls := recvOrigin(fi, call.Call.Args[0]); rcls != "" {
-				recvOK = rcls == "reqs"
-			}
-			// argument: now.Add(-rate)
-			argOK := false
-			if (arg.K == an.KCall || arg.K == an.KPure) && arg.Callee() == "(time.Time).Add" && len(arg.A) == 2 && arg.A[0].Key() == nowT.Key() {
-				d := arg.A[1]
-				if d.K == an.KUn && d.S == "-" {
-					if f, _, ok := mapFieldOfTerm(d.A[0]); ok && f == "rate" {
-						argOK = true
-					}
+			for k, a := range call.Call.Args {
+				if fi.Term(a).Key() == nowT.Key() && k < len(sc.Params) {
+					exps = append(exps, expFn{sc, p.Info(sc).Term(sc.Params[k]).Key()})
 				}
 			}
-			c.Check(okShape && recvOK && argOK, "PRED", allow, call.Pos(), key,
-				"a stored timestamp t is retained iff t.After(now.Add(-rate)) (spec C19.keep: t - (now - rate) > 0)",
-				"comparison "+name+" receiver "+short(recv.Key())+" argument "+short(arg.Key()))
+		}
+	}
+	nCmp, nSl := 0, 0
+	haveEmpty, haveSuffix := false, false
+	for _, ef := range exps {
+		efi := p.Info(ef.fn)
+		c.Scope(ef.fn)
+		// retention: the only time comparison is stored.After(now.Add(-rate))
+		for _, b := range ef.fn.Blocks {
+			for _, in := range b.Instrs {
+				call, ok := in.(*ssa.Call)
+				if !ok {
+					continue
+				}
+				name := an.CalleeName(&call.Call)
+				switch name {
+				case "(time.Time).After", "(time.Time).Before", "(time.Time).Equal", "(time.Time).Compare", "(time.Time).Sub":
+				default:
+					continue
+				}
+				nCmp++
+				recv := efi.Term(call.Call.Args[0])
+				arg := efi.Term(call.Call.Args[1])
+				okShape := name == "(time.Time).After"
+				recvOK := recvOrigin(efi, call.Call.Args[0]) == "reqs"
+				argOK := false
+				if (arg.K == an.KCall || arg.K == an.KPure) && arg.Callee() == "(time.Time).Add" && len(arg.A) == 2 && arg.A[0].Key() == ef.nowK {
+					d := arg.A[1]
+					if d.K == an.KUn && d.S == "-" {
+						if f, _, ok := mapFieldOfTerm(d.A[0]); ok && f == "rate" {
+							argOK = true
+						}
+					}
+				}
+				c.Check(okShape && recvOK && argOK, "PRED", ef.fn, call.Pos(), an.KeyOf(ef.fn, "retain-pred"),
+					"a stored timestamp t is retained iff t.After(now.Add(-rate)) (spec C19.keep: t - (now - rate) > 0)",
+					"comparison "+name+" receiver "+short(recv.Key())+" argument "+short(arg.Key()))
+			}
+		}
+		// kept suffix: reqs = reqs[idx:] or reqs[:0]
+		for _, b := range ef.fn.Blocks {
+			for _, in := range b.Instrs {
+				st, ok := in.(*ssa.Store)
+				if !ok {
+					continue
+				}
+				cls := efi.RefClass(st.Addr)
+				if f, ok := cls.FieldOf("RateLimiter"); !ok || f != "reqs" {
+					continue
+				}
+				sl, ok := st.Val.(*ssa.Slice)
+				if !ok {
+					continue
+				}
+				nSl++
+				vt := efi.Term(sl)
+				key := an.KeyOf(ef.fn, "kept:"+short(vt.Key()))
+				lo, hi := vt.A[1], vt.A[2]
+				hc, _ := hi.IsConst()
+				lc, _ := lo.IsConst()
+				switch {
+				case hc == "0" && lc == "0":
+					// empty: only on the way on which the scan found no unexpired timestamp, i.e. the index variable
+					// still has its initial value (idx == -1, or idx == n for a scan that starts with idx = len)
+					haveEmpty = true
+					okE := false
+					for _, f := range efi.FactsAt(st) {
+						if f.Neg || f.T.K != an.KBin || f.T.S != "==" {
+							continue
+						}
+						for k := 0; k < 2; k++ {
+							ph, isPhi := f.T.A[k].Val.(*ssa.Phi)
+							if !isPhi || f.T.A[k].K != an.KPhi {
+								continue
+							}
+							other := f.T.A[1-k]
+							// the other side is the value the index variable has when the scan loop was never left by break
+							for _, e := range ph.Edges {
+								if efi.Term(e).Key() == other.Key() && !containsPhi(efi.Term(e)) {
+									okE = true
+								}
+							}
+						}
+					}
+					c.Check(okE, "PRED", ef.fn, st.Pos(), key, "the list is emptied only when the scan found no timestamp to retain (the index variable still has its initial value)", "dominating fact idx == initial value; facts "+factList(efi.FactsAt(st)))
+				case hc == "end":
+					haveSuffix = true
+					// reqs[idx:] where idx is set, at the break, to the index of the first retained element
+					okS := false
+					if ph, isPhi := lo.Val.(*ssa.Phi); isPhi && lo.K == an.KPhi {
+						for i, e := range ph.Edges {
+							if !containsPhi(efi.Term(e)) {
+								continue
+							}
+							pred := ph.Block().Preds[i]
+							for _, f := range efi.FactsAtBlock(pred) {
+								if !f.Neg && (f.T.K == an.KCall || f.T.K == an.KPure) && f.T.Callee() == "(time.Time).After" {
+									okS = true
+								}
+							}
+						}
+					}
+					c.Check(okS, "PRED", ef.fn, st.Pos(), key, "the list keeps the suffix that starts at the index where the scan first found t.After(now-rate) (scan from the oldest entry, stop at the first unexpired one)", "lower bound "+short(lo.Key()))
+				default:
+					c.Violated("PRED", ef.fn, st.Pos(), key, "the request list is resliced in an unexpected way: "+short(vt.Key()), "expected reqs[idx:] or reqs[:0]")
+				}
+			}
 		}
 	}
 	if nCmp != 1 {
 		c.Violated("FORM", allow, allow.Pos(), an.KeyOf(allow, "retain-count"), "the expiry step must decide retention by exactly one comparison of a stored timestamp with now-rate; found "+fmt.Sprint(nCmp), "the sliding-window rules are established for this form only")
 	}
-	// kept suffix: reqs = reqs[idx:] or reqs[:0]
-	nSl := 0
-	for _, b := range allow.Blocks {
-		for _, in := range b.Instrs {
-			st, ok := in.(*ssa.Store)
-			if !ok {
-				continue
-			}
-			cls := fi.RefClass(st.Addr)
-			if f, ok := cls.FieldOf("RateLimiter"); !ok || f != "reqs" {
-				continue
-			}
-			sl, ok := st.Val.(*ssa.Slice)
-			if !ok {
-				continue
-			}
-			nSl++
-			vt := fi.Term(sl)
-			key := an.KeyOf(allow, "kept:"+short(vt.Key()))
-			lo, hi := vt.A[1], vt.A[2]
-			hc, _ := hi.IsConst()
-			lc, _ := lo.IsConst()
-			switch {
-			case hc == "0" && lc == "0":
-				// empty: must be on the path where no element was retained (idx == -1)
-				okE := false
-				for _, f := range fi.FactsAt(st) {
-					if f.T.K == an.KBin && f.T.S == "==" {
-						for _, a := range f.T.A {
-							if k, ok := a.IsConst(); ok && k == "-1" {
-								okE = true
-							}
-						}
-					}
-				}
-				c.Check(okE, "PRED", allow, st.Pos(), key, "the list is emptied only when no stored timestamp is retained", "dominating fact idx == -1")
-			case hc == "end":
-				// reqs[idx:] where idx is the index of the first retained element
-				c.Check(lo.K == an.KPhi, "PRED", allow, st.Pos(), key, "the list keeps the suffix starting at the first retained element", "lower bound "+short(lo.Key()))
-			default:
-				c.Violated("PRED", allow, st.Pos(), key, "the request list is resliced in an unexpected way: "+short(vt.Key()), "expected reqs[idx:] or reqs[:0]")
-			}
-		}
-	}
-	if nSl != 2 {
+	if !(haveEmpty && haveSuffix && nSl == 2) {
 		c.Violated("FORM", allow, allow.Pos(), an.KeyOf(allow, "kept-count"), "the expiry step must store either the suffix that starts at the first unexpired timestamp (reqs[idx:]) or, when none is unexpired, the empty list (reqs[:0]); found "+fmt.Sprint(nSl)+" reslicing store(s): some path keeps expired entries or drops unexpired ones", "the sliding-window rules are established for this form only")
 	}
+	// the expiry runs before the admission test on every path: every store that reslices dominates the limit test / the returns
+	_ = lf
 }
 
 // recvOrigin returns the RateLimiter field a value was taken from (by index or range).
@@ -372,4 +404,15 @@ func recordStores(fi *an.FuncInfo, allow *ssa.Function, nowT *an.Term) []*ssa.St
 		}
 	}
 	return out
+}
+
+// containsPhi: the term is (computed from) a loop-carried value.
+func containsPhi(t *an.Term) bool {
+	found := false
+	t.Walk(func(x *an.Term) {
+		if x.K == an.KPhi {
+			found = true
+		}
+	})
+	return found
 }
